@@ -76,6 +76,10 @@ private:
 	// true while there is an outstanding write operation to the server
 	bool m_writing_to_server;
 
+	// true while the host name of the server is being resolved. Requests
+	// arriving meanwhile are queued in m_server_out_buffer
+	bool m_resolving = false;
+
 	// receive buffer for requests from the client. i.e. client -> proxy (us) -> server
 	char m_client_in_buffer[65536];
 	// buffer size
